@@ -121,13 +121,15 @@ func init() {
 			}
 			rels = append(rels, canonicalRel(r.Intn(7), ns))
 		}
+		// quiet: a replayed pair that does not parse is skipped, not reported as a generator defect
+		quiet := false
 		check := func(baseStr, relStr string, final bool) (sourceaddrs.Source, bool) {
 			var a sourceaddrs.Source
 			var af sourceaddrs.FinalSource
 			var err error
 			if final {
 				fs := baseStr
-				if !strings.HasPrefix(fs, ".") && !strings.Contains(fs, "::") && !strings.Contains(fs, "://") {
+				if !strings.HasPrefix(fs, ".") && !strings.Contains(fs, "::") && !strings.Contains(fs, "://") && !strings.Contains(fs, "@") {
 					pkg, sub, _ := strings.Cut(fs, "//")
 					fs = pkg + "@1.2.3"
 					if sub != "" {
@@ -140,14 +142,20 @@ func init() {
 				a, err = sourceaddrs.ParseSource(baseStr)
 			}
 			if err != nil {
-				rep.Broken = append(rep.Broken, fmt.Sprintf("generator: base %q does not parse: %v", baseStr, err))
+				if !quiet {
+					rep.Broken = append(rep.Broken, fmt.Sprintf("generator: base %q does not parse: %v", baseStr, err))
+				}
 				return nil, false
 			}
 			b, err := sourceaddrs.ParseLocalSource(relStr)
 			if err != nil {
-				rep.Broken = append(rep.Broken, fmt.Sprintf("generator: rel %q does not parse: %v", relStr, err))
+				if !quiet {
+					rep.Broken = append(rep.Broken, fmt.Sprintf("generator: rel %q does not parse: %v", relStr, err))
+				}
 				return nil, false
 			}
+			// what an oracle failure records: the pair and the route (enough to replay it)
+			recIn := []string{baseStr, relStr, fmt.Sprintf("final=%v", final)}
 			var aEnc, resEnc, baseSub, resSub string
 			var isLocal, gotErr bool
 			var res sourceaddrs.Source
@@ -175,7 +183,7 @@ func init() {
 					}
 					// same kind / package / version (oracle)
 					if fmt.Sprintf("%T", rf) != fmt.Sprintf("%T", af) {
-						rep.AddOracle(OracleFailure{Property: "C11", Lane: "resolve", What: "result kind differs from base kind", Input: []string{baseStr, relStr}})
+						rep.AddOracle(OracleFailure{Property: "C11", Lane: "resolve", What: "result kind differs from base kind", Input: recIn})
 					}
 				}
 			} else {
@@ -199,16 +207,16 @@ func init() {
 					case sourceaddrs.RemoteSource:
 						resSub = v.SubPath()
 						if v.Package() != a.(sourceaddrs.RemoteSource).Package() {
-							rep.AddOracle(OracleFailure{Property: "C11", Lane: "resolve", What: "package changed by relative resolution", Input: []string{baseStr, relStr}})
+							rep.AddOracle(OracleFailure{Property: "C11", Lane: "resolve", What: "package changed by relative resolution", Input: recIn})
 						}
 					case sourceaddrs.RegistrySource:
 						resSub = v.SubPath()
 						if v.Package() != a.(sourceaddrs.RegistrySource).Package() {
-							rep.AddOracle(OracleFailure{Property: "C11", Lane: "resolve", What: "package changed by relative resolution", Input: []string{baseStr, relStr}})
+							rep.AddOracle(OracleFailure{Property: "C11", Lane: "resolve", What: "package changed by relative resolution", Input: recIn})
 						}
 					}
 					if fmt.Sprintf("%T", rs) != fmt.Sprintf("%T", a) {
-						rep.AddOracle(OracleFailure{Property: "C11", Lane: "resolve", What: "result kind differs from base kind", Input: []string{baseStr, relStr}})
+						rep.AddOracle(OracleFailure{Property: "C11", Lane: "resolve", What: "result kind differs from base kind", Input: recIn})
 					}
 				}
 			}
@@ -220,9 +228,9 @@ func init() {
 			if !isLocal {
 				want, ok := refApply(baseSub, relStr)
 				if ok == gotErr {
-					rep.AddOracle(OracleFailure{Property: "C11", Lane: "resolve", What: fmt.Sprintf("error/ok mismatch with segment stack (stack ok=%v, code err=%v)", ok, gotErr), Input: []string{baseStr, relStr}})
+					rep.AddOracle(OracleFailure{Property: "C11", Lane: "resolve", What: fmt.Sprintf("error/ok mismatch with segment stack (stack ok=%v, code err=%v)", ok, gotErr), Input: recIn})
 				} else if ok && want != resSub {
-					rep.AddOracle(OracleFailure{Property: "C11", Lane: "resolve", What: fmt.Sprintf("sub-path %q, segment stack says %q", resSub, want), Input: []string{baseStr, relStr}})
+					rep.AddOracle(OracleFailure{Property: "C11", Lane: "resolve", What: fmt.Sprintf("sub-path %q, segment stack says %q", resSub, want), Input: recIn})
 				}
 				if gotErr {
 					rep.Count("outcome:escape-error")
@@ -249,25 +257,19 @@ func init() {
 					}
 				}
 				if want := "loc " + X(canonicalRel(ups, names)); gotErr || resEnc != want {
-					rep.AddOracle(OracleFailure{Property: "C11", Lane: "resolve", What: fmt.Sprintf("local base: result %s (err=%v), the segment stack says %q", resEnc, gotErr, canonicalRel(ups, names)), Input: []string{baseStr, relStr, fmt.Sprintf("final=%v", final)}})
+					rep.AddOracle(OracleFailure{Property: "C11", Lane: "resolve", What: fmt.Sprintf("local base: result %s (err=%v), the segment stack says %q", resEnc, gotErr, canonicalRel(ups, names)), Input: recIn})
 				}
 			}
 			return res, !gotErr
 		}
-		for _, b := range bases {
-			for _, rel := range rels {
-				check(b, rel, false)
-				check(b, rel, true)
-			}
-		}
 		// absolute second argument is returned unchanged
-		for _, b := range bases {
-			for _, abs := range bases {
-				if strings.HasPrefix(abs, ".") {
-					continue
+		checkAbs := func(b, abs string) {
+			{
+				a, aerr := sourceaddrs.ParseSource(b)
+				c, cerr := sourceaddrs.ParseSource(abs)
+				if quiet && (aerr != nil || cerr != nil) {
+					return
 				}
-				a, _ := sourceaddrs.ParseSource(b)
-				c, _ := sourceaddrs.ParseSource(abs)
 				got, err := sourceaddrs.ResolveRelativeSource(a, c)
 				if err != nil || got != c {
 					rep.AddOracle(OracleFailure{Property: "C11", Lane: "resolve", What: "absolute second argument not returned unchanged", Input: []string{b, abs}})
@@ -285,17 +287,14 @@ func init() {
 			}
 		}
 		// composition: resolve(resolve(a,b),c) == resolve(a, resolve(b,c)) on non-local bases
-		ntrip := cfg.N
-		for i := 0; i < ntrip; i++ {
-			bs := bases[r.Intn(len(bases))]
-			if strings.HasPrefix(bs, ".") {
-				continue
+		compose := func(bs, r1, r2 string) {
+			{
+			a, e0 := sourceaddrs.ParseSource(bs)
+			b1, e1 := sourceaddrs.ParseLocalSource(r1)
+			b2, e2 := sourceaddrs.ParseLocalSource(r2)
+			if quiet && (e0 != nil || e1 != nil || e2 != nil) {
+				return
 			}
-			r1 := rels[r.Intn(len(rels))]
-			r2 := rels[r.Intn(len(rels))]
-			a, _ := sourceaddrs.ParseSource(bs)
-			b1, _ := sourceaddrs.ParseLocalSource(r1)
-			b2, _ := sourceaddrs.ParseLocalSource(r2)
 			ab, err1 := sourceaddrs.ResolveRelativeSource(a, b1)
 			var abc sourceaddrs.Source
 			var err2 error
@@ -313,23 +312,22 @@ func init() {
 					rep.AddOracle(OracleFailure{Property: "C11", Lane: "resolve", What: "successive resolutions do not compose", Input: []string{bs, r1, r2}})
 				}
 			}
+			}
 		}
 		// registry sub-path joining (FinalSourceAddr)
 		// sub-paths may hold characters a LOCAL address may not (':' and '\\'): the join must not go
 		// through the local-address parser (seed C11-e)
 		joinSubs := append(append([]string{}, subs...), "mods/v1:2", "a\\b/c", "x:y", "..data/v2", ".hidden")
-		for _, s1 := range joinSubs {
-			for _, s2 := range joinSubs {
-				regStr := "example.com/foo/bar/baz"
-				if s1 != "" {
-					regStr += "//" + s1
+		join := func(regStr, realStr, s1, s2 string) {
+			{
+				reg, e1 := sourceaddrs.ParseRegistrySource(regStr)
+				real, e2 := sourceaddrs.ParseRemoteSource(realStr)
+				if quiet {
+					if e1 != nil || e2 != nil {
+						return
+					}
+					s1, s2 = reg.SubPath(), real.SubPath()
 				}
-				realStr := "git::https://example.com/foo.git"
-				if s2 != "" {
-					realStr += "//" + s2
-				}
-				reg, _ := sourceaddrs.ParseRegistrySource(regStr)
-				real, _ := sourceaddrs.ParseRemoteSource(realStr)
 				got := reg.FinalSourceAddr(real)
 				if v, verr := versions.ParseVersion("1.2.3"); verr == nil {
 					if got2 := reg.Versioned(v).FinalSourceAddr(real); got2 != got {
@@ -346,6 +344,96 @@ func init() {
 				human = append(human, map[string]interface{}{"registry": regStr, "real": realStr})
 				rep.Case(line, s1 != "" && s2 != "", nil)
 				rep.Count("outcome:registry-join")
+			}
+		}
+		// ---- exact replay (-case): the recorded pair / triple goes first through the same checks ----
+		{
+			var arr []string
+			var m struct {
+				Base     *string `json:"base"`
+				Rel      *string `json:"rel"`
+				Final    *bool   `json:"final"`
+				Abs      *string `json:"abs"`
+				Registry *string `json:"registry"`
+				Real     *string `json:"real"`
+			}
+			isRel := func(x string) bool { _, err := sourceaddrs.ParseLocalSource(x); return err == nil }
+			ran := true
+			s0 := len(reqs)
+			quiet = true
+			if loadReplayInput(cfg, "resolve", &arr) && len(arr) >= 2 {
+				rep.BeginReplay()
+				switch {
+				case len(arr) == 3 && strings.HasPrefix(arr[2], "final="):
+					check(arr[0], arr[1], arr[2] == "final=true")
+				case len(arr) == 3:
+					compose(arr[0], arr[1], arr[2])
+				case isRel(arr[1]):
+					// an older record without the route: both routes
+					check(arr[0], arr[1], false)
+					check(arr[0], arr[1], true)
+				default:
+					checkAbs(arr[0], arr[1])
+					join(arr[0], arr[1], "", "")
+				}
+			} else if loadReplayInput(cfg, "resolve", &m) && (m.Base != nil || m.Registry != nil) {
+				rep.BeginReplay()
+				switch {
+				case m.Base != nil && m.Rel != nil:
+					check(*m.Base, *m.Rel, m.Final != nil && *m.Final)
+				case m.Base != nil && m.Abs != nil:
+					checkAbs(*m.Base, *m.Abs)
+				case m.Registry != nil && m.Real != nil:
+					join(*m.Registry, *m.Real, "", "")
+				}
+			} else {
+				ran = false
+				replayMissing(cfg, rep, "resolve")
+			}
+			quiet = false
+			if ran {
+				rep.EndReplay(reqs[s0:]...)
+				if len(reqs) == s0 {
+					rep.Replayed.Note = "the recorded strings are not accepted by the parsers on this tree: nothing to resolve"
+				}
+			}
+		}
+		for _, b := range bases {
+			for _, rel := range rels {
+				check(b, rel, false)
+				check(b, rel, true)
+			}
+		}
+		// absolute second argument is returned unchanged
+		for _, b := range bases {
+			for _, abs := range bases {
+				if strings.HasPrefix(abs, ".") {
+					continue
+				}
+				checkAbs(b, abs)
+			}
+		}
+		ntrip := cfg.N
+		for i := 0; i < ntrip; i++ {
+			bs := bases[r.Intn(len(bases))]
+			if strings.HasPrefix(bs, ".") {
+				continue
+			}
+			r1 := rels[r.Intn(len(rels))]
+			r2 := rels[r.Intn(len(rels))]
+			compose(bs, r1, r2)
+		}
+		for _, s1 := range joinSubs {
+			for _, s2 := range joinSubs {
+				regStr := "example.com/foo/bar/baz"
+				if s1 != "" {
+					regStr += "//" + s1
+				}
+				realStr := "git::https://example.com/foo.git"
+				if s2 != "" {
+					realStr += "//" + s2
+				}
+				join(regStr, realStr, s1, s2)
 			}
 		}
 		rep.Exhaustive = true
